@@ -12,6 +12,13 @@ from core import AnalysisBroken
 from decoder import ALIAS, cond_str
 from domains import KB, KBEval
 
+
+def ref_id(n):
+    n = strip_all(n) if astq.is_node(n) else None
+    while n is not None and n['k'] == 'Cast':
+        n = strip_all(n['e'])
+    return n.get('id') if n is not None and n['k'] == 'Ref' else None
+
 _CACHE = {}
 
 
@@ -481,9 +488,28 @@ def rule_cbr(ctx, R, F):
            and show(ex['body']['s'][0]['r']) == 'ibc.imm' and show(ex['body']['s'][1]['c']) == '((*ibc.idst & ibc.memMask) == 0)' and len(pcs) == 1 and show(pcs[0]['r']) == 'ibc.target')
     R.check(okx, 'exe_CBRANCH', '%s:%d' % (ex['file'], ex['line']), expected='*idst += imm; if ((*idst & memMask) == 0) pc = target', found=body)
     eb = F.func('randomx::BytecodeMachine::executeBytecode')
-    loops = [x for x in walk(eb['body']) if x['k'] == 'For']
-    okl = len(loops) == 1 and show(loops[0]['inc']) == '++pc' and val(loops[0]['init']['d'][0].get('init')) == 0
-    R.check(okl, 'executeBytecode resumes at target + 1', '%s:%d' % (eb['file'], eb['line']), expected='for (pc = 0; pc < n; ++pc)', found=show(loops[0]['inc']) if loops else None)
+    loops = [x for x in walk(eb['body']) if x['k'] in ('For', 'While')]
+    okl = False
+    foundl = None
+    if len(loops) == 1:
+        lp = loops[0]
+        call_ = [c for c in calls(lp['b']) if c.get('name') == 'executeInstruction']
+        pcid = ref_id(call_[0]['a'][1]) if len(call_) == 1 and len(call_[0].get('a', [])) > 1 else None
+        no_cont = not any(x['k'] == 'Continue' for x in walk(lp['b']))
+        if lp['k'] == 'For':
+            inc = strip_all(lp['inc']) if astq.is_node(lp.get('inc')) else None
+            okl = pcid is not None and inc is not None and inc['k'] == 'Un' and '++' in inc['op'] and ref_id(inc['e']) == pcid
+            foundl = 'for (...; %s)' % show(lp.get('inc'))
+        else:
+            st = lp['b']['s'] if lp['b']['k'] == 'Compound' else [lp['b']]
+            last = strip_all(st[-1]) if st else None
+            okl = pcid is not None and no_cont and last is not None and last['k'] == 'Un' and '++' in last['op'] and ref_id(last['e']) == pcid and \
+                sum(1 for x in walk(lp['b']) if x['k'] in ('Un', 'Assign', 'CAssign') and ref_id(x.get('e') or x.get('l')) == pcid) == 1
+            foundl = 'while (...) { ...; %s }' % (show(last) if last else '')
+        # the counter starts at 0
+        init0 = any(d_['id'] == pcid and val(d_.get('init')) == 0 for x in walk(eb['body']) if x['k'] == 'Decl' for d_ in x['d'])
+        okl = okl and init0
+    R.check(okl, 'executeBytecode resumes at target + 1', '%s:%d' % (eb['file'], eb['line']), expected='pc starts at 0 and is incremented exactly once after every executeInstruction(ibc, pc, ...)', found=foundl)
     bc = F.func('randomx::BytecodeMachine::beginCompilation')
     loops = [x for x in walk(bc['body']) if x['k'] == 'For']
     okr = False
@@ -514,18 +540,36 @@ def rule_cfround(ctx, R, F):
     d = [x for x in walk(f['body']) if x['k'] == 'Decl']
     ok1 = len(d) == 1 and showv(d[0]['d'][0]['init']) == 'rotr(*ibc.isrc, ibc.imm)'
     R.check(ok1, 'rotate', '%s:%d' % (f['file'], f['line']), expected='isrc = rotr(*ibc.isrc, ibc.imm)', found=showv(d[0]['d'][0]['init']) if d else None)
-    ifs = [x for x in walk(f['body']) if x['k'] == 'If']
     v2 = F.enumerator('RANDOMX_FLAG_V2')
-    ok2 = False
-    found = None
-    if len(ifs) == 1:
-        with astq.renaming({d[0]['d'][0]['id']: 'x'} if d else {}):
-            found = showv(ifs[0]['c'])
-        ok2 = found in ('((operator&(flags, %d) == 0) || ((x & 60) == 0))' % v2, '(((flags & %d) == 0) || ((x & 60) == 0))' % v2)
-        cs = calls(ifs[0]['t'])
-        with astq.renaming({d[0]['d'][0]['id']: 'x'} if d else {}):
-            ok2 = ok2 and len(cs) == 1 and cs[0].get('name') == 'rx_set_rounding_mode' and showv(cs[0]['a'][0]) == '(x % 4)' and ifs[0].get('e') is None
-    R.check(ok2, 'v1/v2 condition', '%s:%d' % (f['file'], f['line']), expected='if (!(flags & V2) || (x & 60) == 0) rx_set_rounding_mode(x % 4)', found=found)
+    # truth table over (flags & V2, x & 60): the mode is written exactly when !(v2) || (x & 60) == 0 -- whatever the shape (guarded block, early return, ...)
+    xid = d[0]['d'][0]['id'] if d else None
+    ps_ = decoder.paths(f['body'])
+    atoms = []
+    with astq.renaming({xid: 'x'} if xid else {}):
+        for p_ in ps_:
+            for c_, t_ in p_.conds:
+                for a_ in astq.bool_atoms(c_):
+                    if a_ not in atoms:
+                        atoms.append(a_)
+        aV2 = [a_ for a_ in atoms if (str(v2) in a_ or 'RANDOMX_FLAG_V2' in a_) and 'flags' in a_]
+        aX = [a_ for a_ in atoms if a_ in ('(x & 60)',)]
+        found = None
+        ok2 = len(atoms) == 2 and len(aV2) == 1 and len(aX) == 1
+        if ok2:
+            table = {}
+            for vv in (False, True):
+                for xx in (False, True):
+                    asg = {aV2[0]: vv, aX[0]: xx}
+                    live = [p_ for p_ in ps_ if all(astq.bool_eval(c_, asg) == t_ for c_, t_ in p_.conds)]
+                    sets = [c for p_ in live for e_ in p_.events if not isinstance(e_, tuple) for c in calls(e_) if c.get('name') == 'rx_set_rounding_mode']
+                    table[(vv, xx)] = (len(live), len(sets), [showv(c['a'][0]) for c in sets])
+            found = {('v2' if k_[0] else 'v1') + (', bits 2-5 set' if k_[1] else ', bits 2-5 clear'): ('sets the mode' if v_[1] else 'leaves it') for k_, v_ in table.items()}
+            ok2 = all(v_[0] == 1 for v_ in table.values()) and all((v_[1] == 1) == ((not k_[0]) or (not k_[1])) for k_, v_ in table.items())
+            args = set(a_ for v_ in table.values() for a_ in v_[2])
+            ok2 = ok2 and args <= {'(x % 4)', '(x & 3)'}
+        else:
+            found = 'conditions over %s' % atoms
+    R.check(ok2, 'v1/v2 condition', '%s:%d' % (f['file'], f['line']), expected='rx_set_rounding_mode(x % 4) exactly when !(flags & V2) || (x & 60) == 0', found=found)
     # nothing outside the if changes the mode
     outside = [c for c in calls(f['body']) if c.get('name') == 'rx_set_rounding_mode']
     R.check(len(outside) == 1, 'single mode write', '%s:%d' % (f['file'], f['line']), expected=1, found=len(outside))
